@@ -185,7 +185,7 @@ def rule_K2(ctx: Ctx) -> None:
             good = False
             if isinstance(c, ast.Compare) and len(c.ops) == 1 and isinstance(c.ops[0], ast.Eq) and X.U(c.left) == tgt:
                 try:
-                    good = Evaluator().ev(c.comparators[0], {}) == EXEMPTION_VALUE
+                    good = Evaluator().ev(ctx.index.inline_module_constants(f.module.name, c.comparators[0], f.params()), {}) == EXEMPTION_VALUE
                 except Unknown:
                     good = False
             if not good:
